@@ -177,6 +177,19 @@ def run(tier):
                 hist = ("se:0:%s" % C.hexs(miss), "sg:0", "se:0:%s" % C.hexs(miss))
                 scripts.append("Q r0=%s %s" % (C.hexs(d), " ".join(hist)))
                 exps.append((dec, miss, hist))
+        # several literals of one document fetched in interleaved orders: every buffer stays intact (exact bytes, NUL after
+        # the end, same pointer) while the others are materialised; decoded lengths 0..33 cross every allocation granule
+        for base_len in (0, 1, 6, 7, 8, 9, 14):
+            lits, decs = [], []
+            for j in range(8):
+                body = b"abcdefghijklmnopqrstuvwxyz0123456789"[:base_len + j]
+                lits.append(b"\"" + body + b"\\n\"")
+                decs.append(body + b"\n")
+            doc = b"[" + b" ".join(lits) + b"]"
+            for order in ([0, 1, 2, 3, 4, 5, 6, 7], [7, 6, 5, 4, 3, 2, 1, 0], [0, 7, 1, 6, 2, 5, 3, 4], rng.sample(range(8), 8)):
+                hist = ["sg:0.%d" % i for i in order] + ["sg:0.%d" % i for i in order] + ["sg:0.%d" % i for i in reversed(order)]
+                scripts.append("Q r0=%s %s" % (C.hexs(doc), " ".join(hist)))
+                exps.append((decs, None, hist))
         impl, model, diffs, crashes, mcr = K.correspond(cfg, scripts)
         rep.count("histories/" + cfg, len(scripts))
         for i in diffs[:5]:
@@ -187,7 +200,10 @@ def run(tier):
             dec, cstr, hist = exps[i]
             toks = a.split("\t")
             for op, t in zip(hist, toks[1:]):
-                if op.startswith("sg"):
+                if op.startswith("sg") and isinstance(dec, list):
+                    dd = dec[int(op.split(".")[1])]
+                    want = "%d:%s" % (len(dd), C.hexs(dd))
+                elif op.startswith("sg"):
                     want = "ERR" if dec is None else "%d:%s" % (len(dec), C.hexs(dec))
                 else:
                     want = "1" if (dec is not None and dec == bytes.fromhex(op.split(":")[2].replace("-", ""))) else "0"
